@@ -27,7 +27,9 @@ EXTENDS Bind
 EncOpts == [sort : BOOLEAN, nonull : BOOLEAN, nanull : BOOLEAN, novalid : BOOLEAN, noquote : BOOLEAN, vs : BOOLEAN, html : BOOLEAN, compact : BOOLEAN]
 StdEncOpts == [sort |-> TRUE, nonull |-> FALSE, nanull |-> FALSE, novalid |-> FALSE, noquote |-> FALSE, vs |-> TRUE, html |-> TRUE, compact |-> TRUE]
 
-MarshalerKinds == {"mjv", "mjp", "mtv", "mtp", "mtn", "mje", "mjbad", "mjws"}
+\* mjd / mtd / mta / mtm: value receivers on types whose interface word is the value itself (struct of one pointer, array of one
+\* pointer, map) - the same contract as mjv / mtv, another way of building the interface for the call
+MarshalerKinds == {"mjv", "mjp", "mtv", "mtp", "mtn", "mje", "mjbad", "mjws", "mjd", "mtd", "mta", "mtm"}
 EOk(d) == [err |-> FALSE, d |-> d]
 EErr == [err |-> TRUE, d |-> [j |-> "none"]]
 
@@ -61,8 +63,8 @@ RECURSIVE EncFields(_, _, _, _, _, _)
 
 \* the document a marshaler type produces when its method is called
 CallMarshaler(k, V, o) ==
-  CASE k \in {"mjv", "mjp"} -> EOk([j |-> "o", m |-> <<[k |-> "mj", v |-> [j |-> "s", c |-> V.c]]>>])
-    [] k \in {"mtv", "mtp"} -> IF ~o.noquote THEN EOk([j |-> "ts", c |-> V.c])
+  CASE k \in {"mjv", "mjp", "mjd"} -> EOk([j |-> "o", m |-> <<[k |-> "mj", v |-> [j |-> "s", c |-> V.c]]>>])
+    [] k \in {"mtv", "mtp", "mtd", "mta", "mtm"} -> IF ~o.noquote THEN EOk([j |-> "ts", c |-> V.c])
                                \* unquoted on request: the text "mt:..." is not JSON, so it is an error unless validation is disabled too
                                ELSE IF o.novalid THEN EOk([j |-> "xt", c |-> V.c]) ELSE EErr
     [] k = "mtn" -> EOk(IF o.noquote THEN [j |-> "n", c |-> "p12"] ELSE [j |-> "s", c |-> "s12"])
